@@ -47,6 +47,19 @@ def gen(rng, tier):
                "chunk": rng.random() < 0.5, "track": rng.random() < 0.5, "omit": rng.random() < 0.6,
                "omit_flatten_input": rng.random() < 0.3, "seed": rng.randrange(2 ** 30)}
         cases.append({"kind": "enc", "recipe": V.enc_recipe(r), "enc": enc})
+    # CubaLIF whose parameters have DIFFERENT element types, with the (default) input weight omitted from the file: the reader
+    # must supply what the constructor supplies
+    import numpy as np
+    for _ in range(12 if tier == "quick" else 150):
+        sh = [rng.randint(1, 3) for _ in range(rng.choice([0, 1, 2]))]
+        dts = [rng.choice(["float32", "float64", "float16", "int32", "float64"]) for _ in range(5)]
+        if len(set(dts)) == 1:
+            dts[0] = "float32" if dts[0] != "float32" else "float64"
+        args = {p: S.rand_array(rng, sh, dt) for p, dt in zip(["tau_syn", "tau_mem", "r", "v_leak", "v_threshold"], dts)}
+        r = {"k": "NIRGraph", "nodes": {"n": {"k": "CubaLIF", "args": args}}, "edges": []}
+        enc = {"vlen": rng.random() < 0.5, "ascii": rng.random() < 0.5, "int": "keep", "chunk": rng.random() < 0.5, "track": rng.random() < 0.5,
+               "omit": True, "omit_flatten_input": False, "seed": rng.randrange(2 ** 30)}
+        cases.append({"kind": "enc", "recipe": V.enc_recipe(r), "enc": enc})
     return cases
 
 
@@ -213,7 +226,7 @@ def run(c):
     else:
         with quiet():
             gexp = V.build(expected)
-        fail = compare_graphs(gexp, g2, expected, strict_arrays=False)
+        fail = compare_graphs(gexp, g2, expected, strict_arrays=(enc["int"] == "keep"))   # integer widths may have been changed by the encoder
         if fail:
             fail = f"encoding {enc}: " + fail
     nontriv = (not enc["vlen"]) or enc["ascii"] or enc["int"] != "keep" or enc["chunk"] or enc["track"] or enc["omit"]
